@@ -271,7 +271,7 @@ Definition run_lenp (op : string) (a : list val) : list val :=
   let k := lkind_of (argN 0 a) in
   if String.eqb op "lenp.m2s" then
     let n := argN 4 a in
-    if (n <=? lk_max k) && (n <=? SSIZE_MAX) && (N.of_nat (length (argH 3 a)) <? n) then [VS "skip"] else
+    if (n <=? lk_max k) && (n + 9 <=? SSIZE_MAX) && (N.of_nat (length (argH 3 a)) <? n) then [VS "skip"] else
     sinkres (lenp_memory_to_sink k (mk_snk (argB 1 a) (argLZ 2 a)) (argH 3 a) n)
   else if String.eqb op "lenp.b2s" then
     let b := mk_bbuf (argH 3 a) (argN 4 a) (argN 5 a) (argN 6 a) in
@@ -601,13 +601,15 @@ Definition run_rp (op : string) (a : list val) : list val :=
     end
   else if String.eqb op "rp.emit" then
     let kind := argN 3 a in let n := argN 7 a in let pl := argH 9 a in
+    (* first argument: bit 0 = serial transport; bit 1 = the sender re-attaches channel, memory and allocator (same arguments) after its
+       session has started - reconfiguration calls leave the session alone, so the model ignores the bit *)
     let mem16 := argB 1 a in
     let unit := if (kind =? 3) || ((kind =? 4) && mem16) then 2 else 1 in
     if ((kind =? 2) || (kind =? 3) || (kind =? 4)) && negb (N.of_nat (List.length pl) =? n * unit) then [VS "skip"] else
     if (4294967296 <=? n) || (30 <? kind) || ((4 <? kind) && (kind <? 11)) || ((21 <? kind) && (kind <? 30)) then [VS "skip"] else
-    let p := {| g_mem16 := mem16; g_serial := argB 0 a; g_seq := argN 2 a mod 65536; g_blocksize := 128 |} in
+    let p := {| g_mem16 := mem16; g_serial := N.odd (argN 0 a); g_seq := argN 2 a mod 65536; g_blocksize := 128 |} in
     let '(wire, p') := emit p kind (argN 4 a) (argN 5 a mod 65536) (argN 6 a mod 4294967296) n (argN 8 a mod 4294967296) pl in
-    let q := {| g_mem16 := mem16; g_serial := argB 0 a; g_seq := 0; g_blocksize := SIZEOF_RPFRAME + N.of_nat (List.length wire) + 32 |} in
+    let q := {| g_mem16 := mem16; g_serial := N.odd (argN 0 a); g_seq := 0; g_blocksize := SIZEOF_RPFRAME + N.of_nat (List.length wire) + 32 |} in
     ([VN 0; VN (g_seq p'); VH wire] ++
      match regp_recv q (src_plain false wire) true with
      | None => [VS "out-of-fuel"]
